@@ -171,4 +171,238 @@ theorem mask_law (a b : UInt8) (h : a &&& 0xc0 = 0) : (a ||| (0xc0 &&& b)) &&& 0
   have := key ⟨a.toNat, ha⟩ ⟨b.toNat / 64, hb⟩
   simpa using this
 
+set_option maxRecDepth 4000 in
+theorem high_law (a b : UInt8) (h : a &&& 0xc0 = 0) : (a ||| (0xc0 &&& b)) &&& 0xc0 = 0xc0 &&& b := by
+  have key : ∀ x : Fin 64, ∀ c : Fin 4,
+      (UInt8.ofNat x.val ||| UInt8.ofNat (64 * c.val)) &&& 0xc0 = UInt8.ofNat (64 * c.val) := by decide
+  have ha := high_clear_lt a h
+  have hb : b.toNat / 64 < 4 := by have := b.toNat_lt; omega
+  rw [high_part b]
+  have := key ⟨a.toNat, ha⟩ ⟨b.toNat / 64, hb⟩
+  simpa using this
+
+set_option maxRecDepth 8000 in
+theorem upper_lower (b : UInt8) (h : ¬ (97 ≤ b ∧ b ≤ 122)) : toUpperB (toLowerB b) = b := by
+  have key : ∀ k : Fin 256, ¬ (97 ≤ UInt8.ofNat k.val ∧ UInt8.ofNat k.val ≤ 122) →
+      toUpperB (toLowerB (UInt8.ofNat k.val)) = UInt8.ofNat k.val := by decide
+  have := key ⟨b.toNat, b.toNat_lt⟩
+  simp only [UInt8.ofNat_toNat] at this
+  exact this h
+
+
+/-! ### obfuscators -/
+
+/-- The laws of the primitives that the round trip of the obfuscators needs; a hypothesis of the
+theorems, never an axiom. `pubOf` is the public key of a private key (curve25519 base multiplication). -/
+structure CryptoLaws (C : Crypto) (pubOf : C.Priv → C.Pub) : Prop where
+  /-- Diffie–Hellman commutes -/
+  dh_comm : ∀ a b, C.dh a (pubOf b) = C.dh b (pubOf a)
+  /-- Elligator: decoding a produced representative gives the public key it was produced for -/
+  repr_inv : ∀ a r, C.reprOf a = some r → C.pubOfRepr r = pubOf a
+  /-- a representative is 32 bytes and its two most significant bits are clear -/
+  repr_len : ∀ a r, C.reprOf a = some r → r.length = 32
+  repr_high : ∀ a r, C.reprOf a = some r → ∀ x ∈ r.drop 31, x &&& 0xc0 = 0
+  /-- CTR is an involution under the same key and IV and preserves the length -/
+  ctr_inv : ∀ k iv x y, C.ctr k iv x = some y → C.ctr k iv y = some x
+  /-- GCM `Open` inverts `Seal` under the same key and nonce -/
+  gcm_inv : ∀ k iv x y, C.gcmSeal k iv x = some y → C.gcmOpen k iv y = some x
+  gcm_len : ∀ k iv x y, C.gcmSeal k iv x = some y → y.length = x.length + 16
+
+theorem clearHigh_setHigh (r : Bytes) (rb : UInt8) (h : ∀ x ∈ r.drop 31, x &&& 0xc0 = 0) :
+    clearHigh (setHigh r rb) = r := by
+  unfold clearHigh setHigh
+  by_cases hl : r.length ≤ 31
+  · simp [List.drop_of_length_le hl, List.take_of_length_le hl]
+  · have hl' : 31 < r.length := by omega
+    have ht : (r.take 31).length = 31 := by simp [List.length_take]; omega
+    rw [List.take_left' ht, List.drop_left' ht, List.map_map]
+    have : (r.drop 31).map ((fun x => x &&& 0x3f) ∘ fun x => x ||| (0xc0 &&& rb)) = r.drop 31 := by
+      conv => rhs; rw [← List.map_id (r.drop 31)]
+      apply List.map_congr_left
+      intro x hx
+      simp [mask_law x rb (h x hx)]
+    rw [this, List.take_append_drop]
+
+theorem setHigh_length (r : Bytes) (rb : UInt8) : (setHigh r rb).length = r.length := by
+  unfold setHigh
+  simp [List.length_take, List.length_drop]; omega
+
+theorem firstRepresentable_some {C : Crypto} {draws : List C.Priv} {k : C.Priv} {r : Bytes}
+    (h : firstRepresentable C draws = some (k, r)) : C.reprOf k = some r := by
+  induction draws with
+  | nil => simp [firstRepresentable] at h
+  | cons a as ih =>
+    unfold firstRepresentable at h
+    split at h
+    · rename_i r' hr; cases h; exact hr
+    · exact ih h
+
+theorem slice_append_left (a b : Bytes) : slice (a ++ b) 0 a.length = .ok a := by
+  rw [slice_eq (by omega) (by simp)]; simp
+
+theorem slice_append_right (a b : Bytes) : slice (a ++ b) a.length (a ++ b).length = .ok b := by
+  rw [slice_eq (by simp) (by omega)]; simp
+
+theorem ctr_roundtrip (C : Crypto) (pubOf : C.Priv → C.Pub) (L : CryptoLaws C pubOf)
+    (draws : List C.Priv) (rb : UInt8) (pt : Bytes) (stPriv : C.Priv) (ct : Bytes)
+    (h : ctrObfuscate C draws rb pt 32 (pubOf stPriv) = .ok ct) : ctrReveal C ct stPriv = .ok pt := by
+  unfold ctrObfuscate at h
+  simp only [ne_eq, not_true_eq_false, if_false] at h
+  split at h
+  · cases h
+  · rename_i priv r hfr
+    have hrep := firstRepresentable_some hfr
+    split at h
+    · cases h
+    · rename_i shared hdh
+      split at h
+      · cases h
+      · rename_i body hctr
+        cases h
+        have hlen : (setHigh r rb).length = 32 := by rw [setHigh_length, L.repr_len _ _ hrep]
+        unfold ctrReveal
+        have h1 : ¬ ((setHigh r rb ++ body).length < 32) := by simp [hlen]
+        simp only [h1, if_false]
+        have s1 := slice_append_left (setHigh r rb) body
+        rw [hlen] at s1
+        have s2 := slice_append_right (setHigh r rb) body
+        rw [hlen] at s2
+        rw [s1]
+        simp only [Outcome.bind]
+        rw [clearHigh_setHigh r rb (L.repr_high _ _ hrep), L.repr_inv _ _ hrep, L.dh_comm, hdh]
+        simp only
+        rw [s2]
+        simp only
+        rw [L.ctr_inv _ _ _ _ hctr]
+
+theorem gcm_roundtrip (C : Crypto) (pubOf : C.Priv → C.Pub) (L : CryptoLaws C pubOf)
+    (draws : List C.Priv) (rb : UInt8) (pt : Bytes) (stPriv : C.Priv) (ct : Bytes)
+    (h : gcmObfuscate C draws rb pt 32 (pubOf stPriv) = .ok ct) : gcmReveal C ct stPriv = .ok pt := by
+  unfold gcmObfuscate at h
+  simp only [ne_eq, not_true_eq_false, if_false] at h
+  split at h
+  · cases h
+  · rename_i priv r hfr
+    have hrep := firstRepresentable_some hfr
+    split at h
+    · cases h
+    · rename_i shared hdh
+      split at h
+      · cases h
+      · rename_i body hseal
+        cases h
+        have hlen : (setHigh r rb).length = 32 := by rw [setHigh_length, L.repr_len _ _ hrep]
+        have hbl := L.gcm_len _ _ _ _ hseal
+        unfold gcmReveal
+        have h1 : ¬ ((setHigh r rb ++ body).length < 48) := by simp [hlen, hbl]; omega
+        simp only [h1, if_false]
+        have s1 := slice_append_left (setHigh r rb) body
+        rw [hlen] at s1
+        have s2 := slice_append_right (setHigh r rb) body
+        rw [hlen] at s2
+        rw [s1]
+        simp only [Outcome.bind]
+        rw [clearHigh_setHigh r rb (L.repr_high _ _ hrep), L.repr_inv _ _ hrep, L.dh_comm, hdh]
+        simp only
+        rw [s2]
+        simp only
+        rw [L.gcm_inv _ _ _ _ hseal]
+
+theorem xorBytes_cancel : ∀ (a b : Bytes), a.length = b.length → xorBytes a (xorBytes a b) = b
+  | [], [], _ => rfl
+  | x :: xs, y :: ys, h => by
+    simp only [xorBytes]
+    rw [xorBytes_cancel xs ys (by simpa using h)]
+    congr 1
+    rw [← UInt8.xor_assoc, UInt8.xor_self, UInt8.zero_xor]
+  | [], _ :: _, h => by simp at h
+  | _ :: _, [], h => by simp at h
+
+theorem xorBytes_length : ∀ (a b : Bytes), a.length = b.length → (xorBytes a b).length = b.length
+  | [], [], _ => rfl
+  | x :: xs, y :: ys, h => by simp [xorBytes, xorBytes_length xs ys (by simpa using h)]
+  | [], _ :: _, h => by simp at h
+  | _ :: _, [], h => by simp at h
+
+theorem xor_roundtrip (pad pt ct : Bytes) (h : xorObfuscate pad pt = .ok ct) : xorReveal ct = .ok pt := by
+  unfold xorObfuscate at h
+  split at h
+  · cases h
+  · rename_i h0
+    split at h
+    · cases h
+    · rename_i hp
+      cases h
+      have ht : (pad.take pt.length).length = pt.length := by simp [List.length_take]; omega
+      have hx := xorBytes_length (pad.take pt.length) pt ht
+      unfold xorReveal
+      have hl : (List.take pt.length pad ++ xorBytes (List.take pt.length pad) pt).length = 2 * pt.length := by
+        simp [hx, ht]; omega
+      rw [hl]
+      have h1 : ¬ (2 * pt.length % 2 ≠ 0 ∨ 2 * pt.length = 0) := by omega
+      simp only [h1, if_false]
+      have hh : 2 * pt.length / 2 = pt.length := by omega
+      rw [hh]
+      have s1 := slice_append_left (pad.take pt.length) (xorBytes (pad.take pt.length) pt)
+      have s2 := slice_append_right (pad.take pt.length) (xorBytes (pad.take pt.length) pt)
+      rw [ht] at s1 s2
+      rw [hl] at s2
+      rw [s1]; simp only [Outcome.bind]
+      rw [s2]; simp only
+      rw [xorBytes_cancel _ _ ht]
+
+/-! ### freshness: the randomness is embedded injectively in the output -/
+
+theorem setHigh_inj (r1 r2 : Bytes) (rb1 rb2 : UInt8) (l1 : r1.length = 32) (l2 : r2.length = 32)
+    (h1 : ∀ x ∈ r1.drop 31, x &&& 0xc0 = 0) (h2 : ∀ x ∈ r2.drop 31, x &&& 0xc0 = 0)
+    (h : setHigh r1 rb1 = setHigh r2 rb2) : r1 = r2 ∧ 0xc0 &&& rb1 = 0xc0 &&& rb2 := by
+  have hr : r1 = r2 := by
+    have := congrArg clearHigh h
+    rwa [clearHigh_setHigh r1 rb1 h1, clearHigh_setHigh r2 rb2 h2] at this
+  subst hr
+  refine ⟨rfl, ?_⟩
+  unfold setHigh at h
+  have hd := List.append_cancel_left h
+  have hne : r1.drop 31 ≠ [] := by
+    intro hnil
+    have := congrArg List.length hnil
+    simp [List.length_drop] at this; omega
+  obtain ⟨x, xs, hx⟩ := List.exists_cons_of_ne_nil hne
+  rw [hx] at hd
+  simp only [List.map_cons, List.cons.injEq] at hd
+  have hx0 : x &&& 0xc0 = 0 := h1 x (by rw [hx]; simp)
+  have := congrArg (· &&& (0xc0 : UInt8)) hd.1
+  simp only [high_law x rb1 hx0, high_law x rb2 hx0] at this
+  exact this
+
+theorem xorObfuscate_prefix (pad pt ct : Bytes) (h : xorObfuscate pad pt = .ok ct) :
+    ct.take pt.length = pad.take pt.length := by
+  unfold xorObfuscate at h
+  split at h
+  · cases h
+  · split at h
+    · cases h
+    · rename_i hp
+      cases h
+      have ht : (pad.take pt.length).length = pt.length := by simp [List.length_take]; omega
+      rw [List.take_left' ht]
+
+/-! ### URL-less Any -/
+
+theorem normalizeUrl_nil : normalizeUrl [] = [] := by
+  simp [normalizeUrl, replaceAll, replaceAllAux]
+
+theorem restoreUrl_erase (exp : Url) (a : AnyMsg) :
+    restoreUrl (some exp) (some (eraseUrl a)) = .ok (some ⟨exp, a.value⟩) := by
+  simp [restoreUrl, eraseUrl, normalizeUrl_nil]
+
+theorem restoreUrl_same (exp : Url) (a : AnyMsg) (h : normalizeUrl a.typeUrl = exp) :
+    restoreUrl (some exp) (some a) = .ok (some ⟨exp, a.value⟩) := by
+  simp [restoreUrl, h]
+
+theorem restoreUrl_other (exp : Url) (a : AnyMsg) (h0 : normalizeUrl a.typeUrl ≠ [])
+    (h : normalizeUrl a.typeUrl ≠ exp) : restoreUrl (some exp) (some a) = .err .wrongType := by
+  simp [restoreUrl, h, h0]
+
+
 end CJ.Codec
